@@ -331,6 +331,8 @@ int _GD_Include(DIRFILE *D, struct parser_state *p, const char *ename,
     (p->flags & GD_BIG_ENDIAN) ? GD_BIG_ENDIAN : GD_LITTLE_ENDIAN
 #endif
     ;
+  /* the ARM flag of "/ENDIAN ... arm" is part of the inherited byte order */
+  D->fragment[me].byte_sex |= p->flags & GD_ARM_FLAG;
   D->fragment[me].ref_name = NULL;
   D->fragment[me].frame_offset = D->fragment[parent].frame_offset;
   D->fragment[me].protection = D->fragment[parent].protection;
